@@ -63,10 +63,10 @@ def main():
         bounds = consts.get("BOUNDS", {})
         checks.append({
             "property_id": pid,
-            "quick_cmd": "python3 vcheck.py %s --tier quick" % pid,
-            "thorough_cmd": "python3 vcheck.py %s --tier thorough" % pid,
+            "quick_cmd": "/venv/bin/python vcheck.py %s --tier quick" % pid,
+            "thorough_cmd": "/venv/bin/python vcheck.py %s --tier thorough" % pid,
             "evidence_file": "/verif/evidence/%s.json" % pid,
-            "replay_cmd_template": "python3 vcheck.py --replay {path}",
+            "replay_cmd_template": "/venv/bin/python vcheck.py --replay {path}",
             "engine": "vcheck",
             "level_claimed": {
                 "category": consts.get("LEVEL", "model_checking"),
